@@ -1,3 +1,172 @@
 package main
 
-func runSelfValidation(prop, repo, verif string, extra map[string]interface{}) {}
+import (
+	"bytes"
+	"fmt"
+	"io"
+	"os"
+	"os/exec"
+	"path/filepath"
+	"sort"
+	"strings"
+	"sync"
+)
+
+// Thorough tier: checker self-validation. Every breaking patch filed for this
+// property - /verif/mutants/<id>/*.patch (written while building the rules) and
+// /verif/seeded/<id>?/patch.diff (written by independent sub-agents from the
+// property text alone) - is applied to a scratch copy of the CURRENT tree, the
+// property's rules are re-run on it in a child process (quick tier), and the
+// result is recorded: detected / missed / skipped (patch no longer applies or
+// the patched tree does not build). The outcome goes into the evidence
+// (coverage.selftest); it never changes the verdict on /repo itself: a patch
+// that stopped applying because /repo was edited is not a property violation.
+// Scratch copies live under os.TempDir() and are removed immediately.
+func runSelfValidation(prop, repo, verif string, extra map[string]interface{}) {
+	type item struct{ name, path string }
+	var items []item
+	if ms, _ := filepath.Glob(filepath.Join(verif, "mutants", prop, "*.patch")); ms != nil {
+		for _, p := range ms {
+			items = append(items, item{"mutants/" + prop + "/" + filepath.Base(p), p})
+		}
+	}
+	if ms, _ := filepath.Glob(filepath.Join(verif, "seeded", prop+"?", "patch.diff")); ms != nil {
+		for _, p := range ms {
+			items = append(items, item{"seeded/" + filepath.Base(filepath.Dir(p)), p})
+		}
+	}
+	sort.Slice(items, func(i, j int) bool { return items[i].name < items[j].name })
+	type res struct {
+		Name   string   `json:"patch"`
+		Status string   `json:"status"`
+		Rules  []string `json:"rules_fired,omitempty"`
+		Detail string   `json:"detail,omitempty"`
+	}
+	results := make([]res, len(items))
+	self, _ := os.Executable()
+	sem := make(chan struct{}, 6)
+	var wg sync.WaitGroup
+	for k, it := range items {
+		wg.Add(1)
+		go func(k int, it item) {
+			defer wg.Done()
+			sem <- struct{}{}
+			defer func() { <-sem }()
+			results[k] = res{Name: it.name}
+			d, err := os.MkdirTemp("", "bisq-selftest-")
+			if err != nil {
+				results[k].Status, results[k].Detail = "skipped", err.Error()
+				return
+			}
+			defer os.RemoveAll(d)
+			if err := copyTree(repo, filepath.Join(d, "repo")); err != nil {
+				results[k].Status, results[k].Detail = "skipped", "copy: "+err.Error()
+				return
+			}
+			os.MkdirAll(filepath.Join(d, "verif"), 0o755)
+			if b, err := os.ReadFile(filepath.Join(verif, "known_findings.json")); err == nil {
+				os.WriteFile(filepath.Join(d, "verif", "known_findings.json"), b, 0o644)
+			}
+			patch, _ := os.ReadFile(it.path)
+			cmd := exec.Command("patch", "-p1", "-s", "--no-backup-if-mismatch")
+			cmd.Dir = filepath.Join(d, "repo")
+			cmd.Stdin = bytes.NewReader(patch)
+			if out, err := cmd.CombinedOutput(); err != nil {
+				results[k].Status, results[k].Detail = "skipped", "patch does not apply to the current tree: "+firstLine(string(out))
+				return
+			}
+			build := exec.Command("go", "build", "./...")
+			build.Dir = filepath.Join(d, "repo")
+			build.Env = append(os.Environ(), "GOFLAGS=-mod=mod", "GOPROXY=off", "GOSUMDB=off", "GOTOOLCHAIN=local", "GOWORK=off")
+			if out, err := build.CombinedOutput(); err != nil {
+				results[k].Status, results[k].Detail = "skipped", "patched tree does not build: "+firstLine(string(out))
+				return
+			}
+			run := exec.Command(self, "-property", prop, "-tier", "quick", "-repo", filepath.Join(d, "repo"), "-verif", filepath.Join(d, "verif"))
+			out, _ := run.CombinedOutput()
+			rules := map[string]bool{}
+			for _, line := range strings.Split(string(out), "\n") {
+				for _, tag := range []string{": VIOLATION ", ": UNDECIDED "} {
+					if i := strings.Index(line, tag); i >= 0 {
+						rest := line[i+len(tag):]
+						if j := strings.Index(rest, " "); j > 0 {
+							rules[rest[:j]] = true
+						}
+					}
+				}
+			}
+			if len(rules) > 0 {
+				results[k].Status = "detected"
+				results[k].Rules = sortedKeys(rules)
+			} else {
+				results[k].Status = "missed"
+			}
+		}(k, it)
+	}
+	wg.Wait()
+	det, miss, skip := 0, 0, 0
+	for _, r := range results {
+		switch r.Status {
+		case "detected":
+			det++
+		case "missed":
+			miss++
+		default:
+			skip++
+		}
+	}
+	extra["selftest"] = map[string]interface{}{
+		"what":     "breaking patches for this property applied one at a time to scratch copies of the current tree; the property's rules re-run on each (child process, quick tier)",
+		"patches":  len(items),
+		"detected": det,
+		"missed":   miss,
+		"skipped":  skip,
+		"results":  results,
+	}
+	fmt.Printf("%s self-validation: %d patches, %d detected, %d missed, %d skipped\n", prop, len(items), det, miss, skip)
+}
+
+func firstLine(s string) string {
+	s = strings.TrimSpace(s)
+	if i := strings.Index(s, "\n"); i >= 0 {
+		s = s[:i]
+	}
+	if len(s) > 200 {
+		s = s[:200]
+	}
+	return s
+}
+
+func copyTree(src, dst string) error {
+	return filepath.Walk(src, func(p string, info os.FileInfo, err error) error {
+		if err != nil {
+			return err
+		}
+		rel, _ := filepath.Rel(src, p)
+		if rel == ".git" || strings.HasPrefix(rel, ".git"+string(filepath.Separator)) {
+			if info.IsDir() {
+				return filepath.SkipDir
+			}
+			return nil
+		}
+		target := filepath.Join(dst, rel)
+		if info.IsDir() {
+			return os.MkdirAll(target, 0o755)
+		}
+		if !info.Mode().IsRegular() {
+			return nil
+		}
+		in, err := os.Open(p)
+		if err != nil {
+			return err
+		}
+		defer in.Close()
+		out, err := os.OpenFile(target, os.O_CREATE|os.O_WRONLY|os.O_TRUNC, info.Mode().Perm())
+		if err != nil {
+			return err
+		}
+		defer out.Close()
+		_, err = io.Copy(out, in)
+		return err
+	})
+}
